@@ -433,11 +433,39 @@ def patchAllShared (n : Json) : List (Hunk × List (Option Nat)) → Outcome Jso
     | .err => .err
     | .panic => .panic
 
+/-- `o.pathObject(metadata)` returns the member map ITSELF (an alias) when there are no set keys or the member
+    carries none of them; otherwise a fresh object holding only the key fields -/
+def pathObjectIsMember (m : Metas) (kvs : List (String × Json)) : Bool :=
+  match keysOf m with
+  | none => true
+  | some ks => ks.all (fun k => (alookup k kvs).isNone)
+
+/-- `aliasIdx` restricted to the path objects that really are the member (see `pathObjectIsMember`) -/
+def aliasIdxReal (m : Metas) : Json → List Json → List (Option Nat)
+  | _, [] => []
+  | n, .arr .raw _ :: r => none :: aliasIdxReal m n r
+  | .obj kvs, .str k :: r =>
+    none :: (match alookup k kvs with
+             | some v => aliasIdxReal m v r
+             | none => r.map (fun _ => none))
+  | .arr _ xs, .obj po :: r =>
+    if r.isEmpty then [none]
+    else match lastIdxWithIdent m (identObj m po) xs with
+      | some i =>
+        (match xs[i]? with
+         | some (.obj kvs) =>
+           (if pathObjectIsMember m kvs then some i else none) :: aliasIdxReal m (.obj kvs) r
+         | some v => none :: aliasIdxReal m v r
+         | none => none :: r.map (fun _ => none))
+      | none => none :: r.map (fun _ => none)
+  | _, _ :: r => none :: r.map (fun _ => none)
+
 /-- `d := a.Diff(b, metadata...); a.Patch(d)` on the same in-memory values -/
 def diffPatchShared (m : Metas) (a b : Json) : VDiff × Outcome Json :=
   let d := diffM m a b
-  -- since the keyed path element is a fresh object holding only the key fields (o.pathObject), the
-  -- diff no longer aliases the members of the document
-  (d, patchAll a d)
+  -- a keyed path element is a fresh object holding only the key fields (o.pathObject) and does not alias
+  -- the member — except for a member that carries NONE of the set keys: there the path object is the
+  -- member map itself, and Patch, which mutates members in place, keeps finding it
+  (d, patchAllShared a (d.map (fun h => (h, aliasIdxReal m a h.path))))
 
 end Jd.V1
